@@ -5266,8 +5266,15 @@ class FlowIRConcrete(object):
 
         platform_environments = self.get_environments(platform)
 
+        # VV: Layer (key by key) the environment that the platform defines on top of the same-named environment
+        # that the "default" platform defines - exactly like get_environment() does for the unflattened FlowIR.
+        # A plain environments.update() would replace the whole environment of the default platform and the
+        # variables that only the default platform defines would be lost from the instance.
         environments = default_environments
-        environments.update(platform_environments)
+        for env_name in platform_environments:
+            layered = dict(environments.get(env_name) or {})
+            layered.update(platform_environments[env_name] or {})
+            environments[env_name] = layered
 
         global_variables = FlowIR.fill_in(
             global_variables, context=global_variables, flowir=self._flowir, ignore_errors=True,
